@@ -5,88 +5,143 @@ import (
 	"fmt"
 	"os"
 	"path/filepath"
-	"regexp"
 	"sort"
 	"strconv"
 	"strings"
 
-	"github.com/apache/skywalking-banyandb/banyand/measure"
 	"github.com/apache/skywalking-banyandb/pkg/verif/crashfs"
+	"github.com/apache/skywalking-banyandb/pkg/verif/vos"
 )
 
-// observation is everything the oracle needs from one recovery of one crash state; it does not depend on the crash
-// position, so it is computed once per distinct state.
-type observation struct {
-	Panic       string   `json:"recovery_panic,omitempty"`
-	ReadError   string   `json:"read_error,omitempty"`
-	Post        string   `json:"post_recovery_failure,omitempty"`
-	Nontrivial  string   `json:"recovery_work,omitempty"`
-	Shape       string   `json:"shape"`
-	Served      []string `json:"served_parts"`
-	Problems    []string `json:"problems,omitempty"` // oracle classes that hold for every crash position
-	Removed     []string `json:"removed_by_recovery,omitempty"`
-	Dangling    []string `json:"manifest_entries_without_part,omitempty"`
-	After       []string `json:"shard_dir_after_recovery"`
-	Prefix      int      `json:"recovered_prefix"` // recovered content == batches 1..Prefix; -1 = not a prefix
-	Rows        int      `json:"rows"`
-	LoadedEpoch uint64   `json:"loaded_epoch"`
+// driver is one table (sidx instance, stream tsTable) driven step by step; the same history alphabet, recording,
+// recovery and oracle as for the measure tsTable (history.go / recover.go) run against it.
+type driver interface {
+	Write(batch int)  // introduce batch as a memory part (acknowledged on return)
+	FlushBegin() bool // flusher's half: part files of every memory part
+	FlushEnd()        // introducer's half: introduce the flushed parts and publish the manifest
+	GC()              // remove superseded manifests
+	Merge(ids []uint64) (bool, error)
+	Drain() // run queued background removals (late histories)
+	FileParts() []uint64
+	AllParts() (ids []uint64, mem []bool)
+	Content() (canon string, rows int, err error)
+	Live() (live uint64, pendingGC []uint64) // manifests that may legitimately be on disk
+	Loaded() uint64                           // epoch of the manifest loaded at open (0 = none)
+	Close()
 }
 
-var (
-	hex16   = regexp.MustCompile(`^[0-9a-f]{16}$`)
-	idRe    = regexp.MustCompile(`[0-9a-f]{16}`)
-	pathRe  = regexp.MustCompile(`/dev/shm/[^ "]*/(` + shardDir + `)`)
-	maxHist = 8
-)
+type tableKind struct {
+	open      func(dir string, freshEpoch uint64, queued bool) driver
+	validate  func(partDir string) error
+	reference func(n int, extra bool) string // content of batches 1..n (+ the post-recovery batch)
+	partName  func(id uint64) string
+	snapName  func(epoch uint64) string
+	name      string
+}
 
-func guard(f func()) (msg string) {
-	defer func() {
-		if p := recover(); p != nil {
-			msg = strings.TrimSpace(pathRe.ReplaceAllString(fmt.Sprint(p), "$1"))
-			if i := strings.IndexByte(msg, '\n'); i > 0 {
-				msg = msg[:i]
+var tableKinds = map[string]*tableKind{}
+
+// recordTable runs h once on the real write path of kind k with the I/O log switched on.
+func recordTable(h *history, k *tableKind, scratch string) *recording {
+	root, err := os.MkdirTemp(scratch, "rec-")
+	if err != nil {
+		fatal("%v", err)
+	}
+	defer os.RemoveAll(root)
+	dir := filepath.Join(root, shardDir)
+	vos.VerifStart(h.Queued)
+	var t driver
+	nBatch := 0
+	partBatches := map[uint64][]int{}
+	known := map[uint64]bool{}
+	newPart := func() uint64 { // the part id that appeared in the snapshot
+		ids, _ := t.AllParts()
+		for _, id := range ids {
+			if !known[id] {
+				known[id] = true
+				return id
 			}
-			msg = idRe.ReplaceAllString(msg, "<id>")
-			if i := strings.Index(msg, ": File system return error"); i > 0 {
-				msg = msg[:i]
+		}
+		return 0
+	}
+	covered := func() int {
+		ids, mem := t.AllParts()
+		in := map[int]bool{}
+		for i, id := range ids {
+			if !mem[i] {
+				for _, b := range partBatches[id] {
+					in[b] = true
+				}
 			}
-			if len(msg) > 160 {
-				msg = msg[:160]
+		}
+		n := 0
+		for in[n+1] {
+			n++
+		}
+		return n
+	}
+	func() {
+		defer func() {
+			if p := recover(); p != nil {
+				vos.VerifStop()
+				fatal("history %s panicked while recording: %v", h.Name, p)
 			}
-			if msg == "" {
-				msg = "panic"
+		}()
+		for i, s := range h.Steps {
+			vos.VerifMark(fmt.Sprintf("begin:%d:%s", i, s))
+			switch s {
+			case "init":
+				t = k.open(dir, historyBase, h.Queued)
+			case "w":
+				nBatch++
+				t.Write(nBatch)
+				partBatches[newPart()] = []int{nBatch}
+				vos.VerifMark(fmt.Sprintf("acked:%d", nBatch))
+			case "f", "fb", "fe":
+				if s != "fe" && !t.FlushBegin() {
+					fatal("history %s step %d: nothing to flush", h.Name, i)
+				}
+				if s != "fb" {
+					t.FlushEnd()
+					vos.VerifMark(fmt.Sprintf("published:%d", covered()))
+				}
+			case "m", "p":
+				ids := t.FileParts()
+				if s == "p" {
+					ids = ids[:2]
+				}
+				ok, merr := t.Merge(ids)
+				if merr != nil || !ok {
+					fatal("history %s step %d: merge did not run (%v)", h.Name, i, merr)
+				}
+				np := newPart()
+				for _, id := range ids {
+					partBatches[np] = append(partBatches[np], partBatches[id]...)
+				}
+				vos.VerifMark(fmt.Sprintf("published:%d", covered()))
+			case "gc":
+				t.GC()
+			case "drain":
+				t.Drain()
+			default:
+				fatal("unknown step %q", s)
 			}
+			vos.VerifMark(fmt.Sprintf("end:%d", i))
 		}
 	}()
-	f()
-	return ""
-}
-
-func listDir(dir string) []string {
-	ee, err := os.ReadDir(dir)
-	if err != nil {
-		return nil
-	}
-	var out []string
-	for _, e := range ee {
-		n := e.Name()
-		if e.IsDir() {
-			n += "/"
+	raw := vos.VerifStop()
+	if t != nil {
+		got, _, cerr := t.Content()
+		if cerr != nil || got != k.reference(nBatch, false) {
+			fatal("history %s: live table content differs from the reference model (%v)", h.Name, cerr)
 		}
-		out = append(out, n)
+		t.Close()
 	}
-	sort.Strings(out)
-	return out
+	return finishRecording(h, root, raw, nil)
 }
 
-// recoverState materialises the crash state and runs the real start-up path on it.
-func recoverState(h *history, tree *crashfs.Tree, scratch string) *observation {
-	if h.Kind == "segment" {
-		return recoverSegment(tree, scratch)
-	}
-	if k := tableKinds[h.Kind]; k != nil {
-		return recoverTable(k, tree, scratch)
-	}
+// recoverTable materialises the crash state and runs the real start-up path of kind k on it.
+func recoverTable(k *tableKind, tree *crashfs.Tree, scratch string) *observation {
 	ob := &observation{Prefix: -1}
 	root, err := os.MkdirTemp(scratch, "st-")
 	if err != nil {
@@ -106,54 +161,49 @@ func recoverState(h *history, tree *crashfs.Tree, scratch string) *observation {
 			}
 		}
 	}
-
-	var t *measure.C04Table
-	if ob.Panic = guard(func() { t = measure.C04Open(dir, recoverBase) }); ob.Panic != "" {
+	var t driver
+	if ob.Panic = guard(func() { t = k.open(dir, recoverBase, false) }); ob.Panic != "" {
 		ob.Shape = "recovery panicked"
 		ob.Problems = append(ob.Problems, "recovery panic: "+ob.Panic)
 		return ob
 	}
-	ob.LoadedEpoch = t.LoadedEpoch
-	var rows []measure.C04Row
+	ob.LoadedEpoch = t.Loaded()
+	var got string
 	if msg := guard(func() {
 		var rerr error
-		if rows, rerr = t.Content(allSeries); rerr != nil {
+		if got, ob.Rows, rerr = t.Content(); rerr != nil {
 			panic(rerr)
 		}
 	}); msg != "" {
 		ob.ReadError = msg
 		ob.Problems = append(ob.Problems, "recovered table cannot be read: "+msg)
 	}
-	ob.Rows = len(rows)
-	got := canon(rows)
-	for j := 0; j <= maxHist; j++ {
-		if got == reference(j) {
+	for j := 0; j <= maxHist && ob.ReadError == ""; j++ {
+		if got == k.reference(j, false) {
 			ob.Prefix = j
 			break
 		}
 	}
 	if ob.Prefix < 0 && ob.ReadError == "" {
-		ob.Problems = append(ob.Problems, fmt.Sprintf("recovered content (%d rows) is not the content of any prefix of the batches", len(rows)))
+		ob.Problems = append(ob.Problems, fmt.Sprintf("recovered content (%d rows) is not the content of any prefix of the batches", ob.Rows))
 	}
-
-	// directory after recovery against what the table serves
 	ids, mem := t.AllParts()
 	served := map[string]bool{}
 	for i, id := range ids {
-		name := measure.C04PartName(id)
+		name := k.partName(id)
 		served[name] = true
 		ob.Served = append(ob.Served, name)
 		if mem[i] {
 			ob.Problems = append(ob.Problems, "recovery produced a memory part")
 		}
 	}
-	live, pendingGC := t.LiveEpoch()
+	live, pendingGC := t.Live()
 	okSnp := map[string]bool{}
 	if live != 0 {
-		okSnp[measure.C04SnapshotName(live)] = true
+		okSnp[k.snapName(live)] = true
 	}
 	for _, e := range pendingGC {
-		okSnp[measure.C04SnapshotName(e)] = true
+		okSnp[k.snapName(e)] = true
 	}
 	ob.After = listDir(dir)
 	afterSet := map[string]bool{}
@@ -198,7 +248,7 @@ func recoverState(h *history, tree *crashfs.Tree, scratch string) *observation {
 			ob.Problems = append(ob.Problems, "served part has no directory")
 			continue
 		}
-		if verr := measure.C04ValidatePart(pd); verr != nil {
+		if verr := k.validate(pd); verr != nil {
 			ob.Problems = append(ob.Problems, "served part does not validate")
 		}
 		for _, f := range listDir(pd) {
@@ -209,7 +259,7 @@ func recoverState(h *history, tree *crashfs.Tree, scratch string) *observation {
 	}
 	if live != 0 {
 		var names []string
-		b, rerr := os.ReadFile(filepath.Join(dir, measure.C04SnapshotName(live)))
+		b, rerr := os.ReadFile(filepath.Join(dir, k.snapName(live)))
 		if rerr != nil || json.Unmarshal(b, &names) != nil {
 			ob.Problems = append(ob.Problems, "live manifest is missing or unreadable after recovery")
 		}
@@ -241,25 +291,24 @@ func recoverState(h *history, tree *crashfs.Tree, scratch string) *observation {
 
 	// the recovered table must be usable: one more batch, flush, gc, reopen
 	if ob.ReadError == "" && ob.Prefix >= 0 {
-		extra := batch(maxHist + 1)
-		want := reference(ob.Prefix, extra)
+		want := k.reference(ob.Prefix, true)
 		ob.Post = guard(func() {
-			t.Write(extra)
+			t.Write(maxHist + 1)
 			if !t.FlushBegin() {
 				panic("nothing to flush after a write")
 			}
 			t.FlushEnd()
 			t.GC()
-			r2, e2 := t.Content(allSeries)
-			if e2 != nil || canon(r2) != want {
+			r2, _, e2 := t.Content()
+			if e2 != nil || r2 != want {
 				panic(fmt.Sprintf("content after write+flush on the recovered table is wrong (%v)", e2))
 			}
 			t.Close()
 			t = nil
-			t2 := measure.C04Open(dir, recoverBase+0x1000)
+			t2 := k.open(dir, recoverBase+0x1000, false)
 			defer t2.Close()
-			r3, e3 := t2.Content(allSeries)
-			if e3 != nil || canon(r3) != want {
+			r3, _, e3 := t2.Content()
+			if e3 != nil || r3 != want {
 				panic(fmt.Sprintf("content after reopening the recovered table is wrong (%v)", e3))
 			}
 		})
@@ -272,32 +321,4 @@ func recoverState(h *history, tree *crashfs.Tree, scratch string) *observation {
 	}
 	ob.Problems = uniq(ob.Problems)
 	return ob
-}
-
-func uniq(l []string) []string {
-	sort.Strings(l)
-	var out []string
-	for i, s := range l {
-		if i == 0 || s != l[i-1] {
-			out = append(out, s)
-		}
-	}
-	return out
-}
-
-// judge returns the violation classes of one (crash position, recovered state) pair.
-func judge(ob *observation, p posInfo, h *history) []string {
-	if h.Kind == "segment" {
-		return judgeSegment(ob, p)
-	}
-	out := append([]string(nil), ob.Problems...)
-	if ob.Prefix >= 0 {
-		if ob.Prefix > p.acked {
-			out = append(out, fmt.Sprintf("recovered batches 1..%d but only %d were acknowledged", ob.Prefix, p.acked))
-		}
-		if ob.Prefix < p.durable {
-			out = append(out, "durable prefix lost: recovered fewer batches than the last durably published snapshot covers")
-		}
-	}
-	return out
 }
